@@ -353,6 +353,10 @@ func (bindings *BindStms) compileWildcard(binding *BindStm,
 	global *Ast, pipeline *Pipeline, params Params) error {
 	// type assertion is guaranteed by the syntax
 	ref := binding.Exp.(*RefExp)
+	if pipeline == nil {
+		return global.err(ref,
+			"ReferenceError: this binding cannot be resolved outside of a stage or pipeline.")
+	}
 	var errs ErrorList
 	if ref.Kind == KindSelf && ref.Id == "" {
 		fakeBindings := make([]BindStm, len(pipeline.InParams.List))
